@@ -2,7 +2,7 @@
     stay Coq datatypes; no Extract Constant). Run coqc from the ocaml/ directory. *)
 Require Extraction.
 Require Import ExtrOcamlBasic.
-From IAVL Require Import Bytes Varint Sha256 Tree VMap MTree KV Iter ExportImport Codec Diff Store Ics23 VersionFacts PruneAlgo.
+From IAVL Require Import Bytes Varint Sha256 Tree VMap MTree KV Iter ExportImport Codec Diff Store Ics23 VersionFacts PruneAlgo FastLife.
 
 Definition m_step := MTree.step sha256.
 Definition m_init := MTree.init_state.
@@ -12,6 +12,9 @@ Definition commit_ops_sha := Store.commit_ops sha256.
 Definition get_proof_sha := Ics23.get_proof sha256.
 Definition cimp_run_sha := ExportImport.cimp_run sha256.
 Definition prune_forest_sha := PruneAlgo.prune_forest sha256.
+Definition prune_forest_disks_sha := PruneAlgo.prune_forest_disks sha256.
+Definition readable_sha := PruneAlgo.readable sha256.
+Definition fstep_sha := FastLife.fstep sha256.
 
 Extraction "model.ml" m_step m_init bcmp sha256 uvarint_enc uvarint_dec varint_enc varint_dec
   bytes_enc bytes_dec be_enc be_dec
@@ -23,4 +26,5 @@ Extraction "model.ml" m_step m_init bcmp sha256 uvarint_enc uvarint_dec varint_e
   Codec.root_ref_value
   Diff.extract Diff.net Store.expected_store Store.expected_fast commit_ops_sha
   get_proof_sha Ics23.marshal_commitment_proof VersionFacts.in_contractb
-  prune_forest_sha PruneAlgo.phys_of PruneAlgo.rekeyed.
+  prune_forest_sha prune_forest_disks_sha readable_sha PruneAlgo.phys_of PruneAlgo.rekeyed
+  fstep_sha FastLife.finit.
